@@ -1045,7 +1045,7 @@ func dsTemplate(g *Gen, kind string) []Op {
 func init() {
 	register(&Check{
 		ID: "C05", Level: "exploration",
-		NCases: func(t string) int { return 16 + 16 + tier(t, 16, 64) + tier(t, 120, 3000) },
+		NCases: func(t string) int { return 16 + 16 + tier(t, 16, 64) + tier(t, 120, 1500) },
 		Run: func(c *CaseCtx) {
 			nRand := tier(c.Tier, 16, 64)
 			switch {
@@ -1074,7 +1074,7 @@ func init() {
 	})
 	register(&Check{
 		ID: "C06", Level: "exploration",
-		NCases: func(t string) int { return 1 + tier(t, 150, 3000) },
+		NCases: func(t string) int { return 1 + tier(t, 150, 1500) },
 		Run: func(c *CaseCtx) {
 			if c.Case == 0 {
 				dsSetExhaustive(c, tier(c.Tier, 3, 4))
@@ -1098,7 +1098,7 @@ func init() {
 	})
 	register(&Check{
 		ID: "C07", Level: "exploration",
-		NCases: func(t string) int { return 25 + tier(t, 8, 64) + tier(t, 120, 2500) },
+		NCases: func(t string) int { return 25 + tier(t, 8, 64) + tier(t, 120, 1200) },
 		Run: func(c *CaseCtx) {
 			nRand := tier(c.Tier, 8, 64)
 			switch {
